@@ -1,5 +1,6 @@
 """Per-property assembly: which units run, with which meta data."""
 import os
+import re
 import time
 
 import units_incrate
@@ -81,7 +82,9 @@ def c14(tier, seed):
     obs += go
     lo, lcmd, llog, _ = units_verus.run_unit("layout_tests")
     obs += units_verus.select(lo, r"::field_offset_check::", r"^(post#2|safety)$")
-    cmd = cmd + " ; " + vcmd + " ; " + scmd + " ; " + rcmd + " ; " + ecmd + " ; " + gcmd + " ; " + lcmd
+    fo, fcmd, flog, _ = units_verus.run_unit("flexarray")
+    obs += fo
+    cmd = cmd + " ; " + vcmd + " ; " + scmd + " ; " + rcmd + " ; " + ecmd + " ; " + gcmd + " ; " + lcmd + " ; " + fcmd
     prep = [prep] + [dict(l, unit="fn_abi") for l in vlog] + [dict(l, unit="var_string") for l in slog]
     meta = {
         "checker_cmd": cmd,
@@ -94,6 +97,7 @@ def c14(tier, seed):
             "bindgen/lib.rs: the feature-synchronisation / edition-validation expression of Builder::generate (Verus unit edition, block extracted by rule R18): unsupported edition -> BindgenError::UnsupportedEdition, otherwise RustFeatures::new(target, edition) / new_with_latest_edition(target)",
             "bindgen/codegen/helpers.rs: ast_ty::raw_type (Verus unit raw_type: ::core::ffi::X only when core_ffi_c)",
             "bindgen/codegen/mod.rs: the `let safety = ..` statements of <Var as CodeGenerator>::codegen and <Function as CodeGenerator>::codegen (Verus unit gates, let-statements extracted by rule R18): `unsafe extern` exactly when the target has unsafe_extern_blocks",
+            "bindgen/codegen/mod.rs: CompInfo::generate_flexarray (unit flexarray, whole function; every quote! template becomes the generic env constructor of rule R4u whose feature flags are computed from the template's own text against the table of gated std APIs): the --flexarray-dst helpers spell to_raw_parts / from_raw_parts(_mut) / Layout::for_value_raw only when the target has ptr_metadata resp. layout_for_ptr",
             "bindgen/codegen/mod.rs: the `let compile_time = ..` statement of <CompInfo as CodeGenerator>::codegen (unit gates, R18): true only when the target has offset_of; and the per-member closure of the layout assertions (unit layout_tests, field_offset_check): the `offset_of!` spelling only in the compile_time form",
             "bindgen/codegen/mod.rs: the VarType::String arm of <Var as CodeGenerator>::codegen (Verus unit var_string: block extracted by rule R18; each token template is an env constructor recording the gated feature its text uses) + BindgenContext::trait_prefix",
         ],
@@ -103,7 +107,7 @@ def c14(tier, seed):
             "RustTarget::from_str and RustTarget::default() (rustc --version probing) are not under contract",
         ],
         "unverified": [
-            "that the remaining code-generation sites consult their flag (codegen/mod.rs ptr_metadata / layout_for_ptr of the flexible-array helpers): FunctionSig::abi, raw_type, the string-constant arm and the two `unsafe extern` sites are under contract",
+            "any code-generation site outside the units listed above; the table of gated std API names of unit flexarray (transcribed from the std docs: ptr_metadata = to_raw_parts, from_raw_parts(_mut), metadata, Pointee, DynMetadata; layout_for_ptr = for_value_raw, size_of_val_raw, align_of_val_raw)",
             "RustTarget::default() (rustc --version probing)",
         ],
     }
@@ -197,7 +201,7 @@ def c02(tier, seed):
 
 
 def c10(tier, seed):
-    return _verus_prop("C10", tier, seed, [("layout", r"::(blob|Layout::known_type_for_size|Layout::for_size_internal|Layout::for_size|integer_type|bitfield_unit|Layout::new|align_to|comp_tail_layout)::", None), ("opaque", None, None), ("vouch", None, None), ("impl_debug", None, None), ("lattice_constrain", r"::HasVtableAnalysis::", None), ("prim_types", r"::(BindgenContext::is_stdint_type|type_from_named)::", None),
+    return _verus_prop("C10", tier, seed, [("layout", r"::(blob|Layout::known_type_for_size|Layout::for_size_internal|Layout::for_size|integer_type|bitfield_unit|Layout::new|align_to|comp_tail_layout)::", None), ("opaque", None, None), ("vouch", None, None), ("impl_debug", r"::array_arm::", None), ("lattice_constrain", r"::HasVtableAnalysis::", None), ("prim_types", r"::(BindgenContext::is_stdint_type|type_from_named)::", None),
                                            ("constrain", r"::CannotDerive::constrain_type::", None), ("blocklist", None, None), ("repr", None, None)], {
         "trusted_base": LAYOUT_TRUST,
         "functions_under_contract": ["bindgen/codegen/helpers.rs: blob, integer_type, bitfield_unit", "bindgen/ir/layout.rs: Layout::{known_type_for_size, new, for_size_internal, for_size}",
@@ -228,13 +232,32 @@ def _from_str_witnesses():
     return obs, cmd
 
 
+def _changed_clauses(unit):
+    """TERMINATION (C12 'never loops forever'): the clauses of a unit's contracts that tie the answer `Changed` to a strict
+    move of the fact (the worklist driver re-queues dependants on Changed only; a `Changed` without progress never stops)."""
+    import verus as _v
+    sel = []
+    for it in _v.load_spec(unit)["items"]:
+        if it.get("kind") != "fn":
+            continue
+        idx = [i for i, c in enumerate(it.get("ensures", [])) if "ConstrainResult::Changed" in c or "ConstrainResult::Same" in c]
+        if idx:
+            name = it.get("label", ((it.get("impl_name") + "::") if it.get("impl_name") else "") + it["name"])
+            sel.append((unit, "::" + re.escape(name) + "::", r"^post#(%s)$" % "|".join(str(i) for i in idx)))
+    return sel
+
+
 def c12(tier, seed):
-    units = [("gen_errors", None, None), ("layout", None, r"^(safety|decreases.*)$"), ("bf_alloc", None, r"^(safety|decreases.*)$"), ("macro_type", None, r"^safety$"),
+    term = []
+    for u in ("lattice_insert", "lattice_constrain", "has_float", "has_tp_array", "has_destructor", "constrain", "template_params"):
+        term += _changed_clauses(u)
+    units = term + [("gen_errors", None, None), ("layout", None, r"^(safety|decreases.*)$"), ("bf_alloc", None, r"^(safety|decreases.*)$"), ("macro_type", None, r"^safety$"),
              ("edges", None, r"^safety$"), ("derive_gate", None, r"^safety$"), ("derives", None, r"^safety$"), ("fn_abi", None, r"^(safety|post#3)$"), ("constrain", None, r"^safety$"), ("prim_types", None, r"^safety$"), ("packed", None, r"^(safety|decreases.*)$"), ("blocklist", None, r"^safety$"), ("has_float", None, r"^safety$"), ("has_tp_array", None, r"^safety$"), ("has_destructor", None, r"^safety$"), ("lattice_insert", None, r"^safety$"),
              ("lattice_constrain", r"::constrain::", r"^safety$"), ("link_name", r"::names_will_be_identical_after_mangling::", r"^safety$"), ("eval_int", None, r"^safety$"), ("bf_unit_start", None, r"^safety$"), ("resolver", None, None), ("builtin_ty", None, r"^safety$"), ("char_macro", None, r"^safety$"), ("clang_layout", None, r"^safety$"), ("traversal", None, r"^safety$"), ("trace_impls", None, r"^safety$"), ("enum_consts", None, None), ("template_params", None, r"^safety$")]
     return _verus_prop("C12", tier, seed, units, {
         "trusted_base": LAYOUT_TRUST + ["alloc::fmt::format stubbed in the from_str witness harnesses (message text irrelevant)"],
         "functions_under_contract": ["bindgen/lib.rs: the input-path checks of Bindings::generate (missing -> NotExist, directory -> FolderAsHeader, unreadable -> InsufficientPermissions; file system uninterpreted) and the per-diagnostic step of parse() (severity Error or Fatal -> ClangDiagnostic error) -- blocks extracted by rule R18, unit gen_errors"] + LAYOUT_FNS + ["bindgen/ir/comp.rs: bitfields_to_allocation_units (no-clang-offset mode)", "and the functions of units macro_type, edges, derive_gate, derives, fn_abi (see C05, C07-C09, C14)",
+                                     "bindgen/ir/analysis/*.rs: every insert / forward / constrain of the seven analyses under contract answers `Changed` exactly when the fact it owns strictly moved up its lattice (the `Changed`/`Same` clauses of units lattice_insert, lattice_constrain, has_float, has_tp_array, has_destructor, constrain, template_params): with the driver theorem of unit analyze this is the termination argument of the fix-point loops",
                                      "bindgen/ir/context.rs: ItemResolver::resolve (unit resolver): the reference/alias-following loop TERMINATES on every finite IR, cyclic or not (decreases: items not yet seen), never indexes outside the item table, and returns an item of the table",
                                      "bindgen/ir/context.rs: the kind-mapping statement of build_builtin_ty does not panic on any builtin kind (found and repaired F12: `_Complex int`)",
                                      "bindgen/ir/function.rs: FunctionSig::abi never accepts an ABI that cannot be printed (ClangAbi::Unknown -> UnsupportedAbi; found and repaired F11: Function::codegen and <ClangAbi as ToTokens> panicked on it); bindgen/ir/var.rs: the character-literal arm of Var::parse (found and repaired F10)",
@@ -257,7 +280,7 @@ INCRATE_TRUST = ["in-crate harness modules pulled in by cfg(kani) hook lines; Ty
 def c04(tier, seed):
     def extra():
         return units_incrate.run_spec(units_incrate.abi_spec())
-    return _verus_prop("C04", tier, seed, [("fnsig", None, None), ("ptr_lowering", None, None), ("fn_abi", r"::FunctionSig::(abi|is_variadic)::", None), ("link_name", None, None), ("method_wrapper", None, None), ("var_const", None, None), ("attrs", None, None), ("fn_args", None, None)], {
+    return _verus_prop("C04", tier, seed, [("fnsig", None, None), ("ptr_lowering", None, None), ("fn_abi", r"::FunctionSig::(abi|is_variadic)::", None), ("link_name", None, None), ("method_wrapper", None, None), ("var_const", None, None), ("attrs", None, None), ("fn_args", None, None), ("mangling", None, None)], {
         "trusted_base": INCRATE_TRUST + ["calling-convention oracle: clang-c/Index.h CXCallingConv values x Rust reference ABI strings (kani_incrate/function_abi.rs)"],
         "functions_under_contract": ["bindgen/ir/function.rs: get_abi (Kani in-crate), FunctionSig::abi, FunctionSig::is_variadic (Verus unit fn_abi)",
                                      "bindgen/codegen/mod.rs: utils::fnsig_argument_type, utils::fnsig_return_ty_internal (Verus unit fnsig); the Pointer/Reference arm of <Type as TryToRustTy>::try_to_rust_ty (Verus unit ptr_lowering, block extracted by rule R18)",
@@ -265,6 +288,7 @@ def c04(tier, seed):
                                      "bindgen/ir/var.rs: the mutability decision of Var::parse (unit var_const: nested fn is_const_through_arrays + let-statement, termination by type depth): a global is immutable exactly when its type, as spelled or behind typedefs, is const through every array dimension (found and repaired F16)",
                                      "bindgen/codegen/mod.rs: the `let symbol = ..` statement of <Var as CodeGenerator>::codegen (Verus unit link_name, let-statement R18, verified against the contract of names_will_be_identical_after_mangling): an overridden link name is always spelled out with #[link_name] (found and repaired F13), otherwise the compiler's symbol is named unless it is the Rust name or its platform decoration",
                                      "bindgen/ir/function.rs: cursor_declares_other_function, args_from_ty_and_cursor (iterator pipeline turned into an index loop, rule R29), and the parameter-visitor closure, the `is_own_cursor` and the `args` statements of FunctionSig::from_ty (unit fn_args): ARITY - a function prototype gets exactly the parameters it declares, each of the declared type, and the parameters of an enclosing declaration (function returning a function pointer, pointer to such a function) are never taken for its own (found and repaired F21); the child visitor never recurses",
+                                     "bindgen/ir/function.rs: cursor_mangling, is_itanium_thunk and bindgen/clang.rs: the ABI-kind statement of TargetInfo::new (unit mangling; while-let R19, str operations as Seq-specified env functions R21): of the symbols libclang lists for a C++ function the binding names the last one that is the function itself - for a destructor under the Itanium ABI the complete-object destructor (never the deleting one), never a this-adjusting or covariant-return thunk (found and repaired F23); the Microsoft rules apply only to *-msvc targets",
                                      "bindgen/clang.rs: the per-token predicate of Cursor::has_attrs (unit attrs, closure R18): a token of an unexposed attribute names `noreturn` / `_Noreturn` / `warn_unused_result` only when it is of the attribute's token kind and spells exactly that name",
                                      "bindgen/codegen/mod.rs: utils::names_will_be_identical_after_mangling (Verus unit link_name, all name lengths; std str/slice operations replaced by Seq-specified env functions, rule R21)"],
         "assumptions": ["get_abi: every u32 CXCallingConv value (loop-free, full domain)",
@@ -293,10 +317,10 @@ def c05(tier, seed):
 
 
 def c06(tier, seed):
-    return _verus_prop("C06", tier, seed, [("layout_tests", None, None), ("clang_layout", None, None)], {
+    return _verus_prop("C06", tier, seed, [("layout_tests", None, None), ("clang_layout", None, None), ("target_sel", None, None)], {
         "trusted_base": ["extraction rules incl. R18 (closure and statement extraction) and span substitutions; env/layout_tests_env.rs: each assertion template (const-block / #[test] fn, offset_of! / addr_of! form) is an env constructor that records WHAT it asserts (field, number); message strings irrelevant",
                          "libclang's numbers (record size/alignment, field bit offsets) are the C compiler's for the selected target"],
-        "functions_under_contract": ["bindgen/clang.rs: Cursor::offset_of_field and Type::fallible_{size,align,layout} (unit clang_layout: the asserted numbers are libclang's, without truncation)",
+        "functions_under_contract": ["bindgen/lib.rs: the `is_host_build` statement and the `--target=` insertion statement of Bindings::generate (unit target_sel, statements R18): libclang is told the effective target, in front of the other arguments, whenever no explicit target was given and the effective target is not the host triple itself (so every number it reports is for the target the assertions are emitted for)", "bindgen/clang.rs: Cursor::offset_of_field and Type::fallible_{size,align,layout} (unit clang_layout: the asserted numbers are libclang's, without truncation)",
                                      "bindgen/codegen/mod.rs: the per-member offset-assertion generator (filter_map closure) and the layout-assertion block of <CompInfo as CodeGenerator>::codegen (both extracted by rule R18); <TemplateInstantiation as CodeGenerator>::codegen (whole function)"],
         "assumptions": [
             "for structs/unions generated by CompInfo::codegen: with layout tests on, a known layout and no forward declaration exactly one assertion item is emitted; it asserts the size and the alignment libclang reported and embeds one offset assertion for every named data member with a known offset (= clang's bit offset / 8), none for bit-field units, none at all for opaque types; with layout tests off, nothing is emitted",
